@@ -2,7 +2,8 @@
 """prints the prompt for an independent mutant-writing sub-agent: property text only + its own worktree"""
 import json, sys, subprocess, os
 pid = sys.argv[1]; tag = sys.argv[2] if len(sys.argv) > 2 else pid
-round2 = len(sys.argv) > 3 and sys.argv[3] in ("round2", "round3")
+round2 = len(sys.argv) > 3 and sys.argv[3] in ("round2", "round3", "round4")
+round4 = len(sys.argv) > 3 and sys.argv[3] == "round4"
 p = [json.loads(l) for l in open('/verif/properties.jsonl') if json.loads(l)['id'] == pid][0]
 wt = '/tmp/mut_%s' % tag
 if not os.path.exists(wt):
@@ -40,3 +41,8 @@ if round2:
         ideas.append('  - %s%s%s' % (name.replace('ind-', ''), (': ' + br) if br else '', (' — needs ' + nd) if nd else ''))
     print("\nThis is a LATER round (several rounds were done already). The following ideas were already used by others for this property - your three changes must be genuinely different from all of them (different mechanism, different trigger, if possible a different clause of the property or a different code site):\n" + "\n".join(ideas))
     print("\nPrefer changes of these kinds, which are under-represented so far: two cooperating code sites that each look fine alone; state that leaks between calls, objects, threads or process runs; behaviour that only differs for a boundary value of a configuration parameter (0, 1, negative, INT_MAX) or an unusual-but-legal API usage (same object used twice, call order reversed, empty/NULL argument); a platform/library assumption (locale, time zone, file system timestamp granularity, QString null vs empty).")
+
+if round4:
+    print("""
+ADDITIONALLY (fourth deliverable, out/4/): a BEHAVIOUR-PRESERVING refactoring of the same code region one of your breaking changes touches - the kind of clean-up a maintainer would do (rename locals/members, restructure a loop or condition into an equivalent form, extract a helper function, replace a container or an index loop by iterators, reorder independent statements, change comments/whitespace) - that keeps the property TRUE for every input. It must be non-trivial (at least ~10 changed lines), compile, and pass the test suite. Deliver out/4/patch.diff and out/4/README.md (what was refactored and why behaviour is unchanged); no demo needed. Do not mix it with the breaking changes.
+For the three breaking changes in this round, stay REALISTIC rather than exotic: plausible maintenance mistakes in the code that implements the property (an optimisation with a wrong fast path, a cache, a boundary off-by-one, a reordered pair of steps, a forgotten case in a switch, a condition inverted only for one configuration, a changed default, a wrong type width, a lock scope moved), each needing a specific but perfectly legal trigger.""")
